@@ -20,7 +20,7 @@ TOL = 1e-8
 
 
 def strategy(shard):
-    return st.fixed_dictionaries({"shells": gen.basis(nmin=2, nmax=4, lmax=5, first_ls=(shard["la"], shard["lb"]))})
+    return st.fixed_dictionaries({"shells": gen.basis(nmin=2, nmax=4, lmax=5, first_ls=(shard["la"], shard["lb"])).flatmap(gen.with_prefactor_distance)})
 
 
 def judge(case):
